@@ -329,6 +329,84 @@ fn eval<P: Property>(p: &P, case: &P::Case) -> (Verdict, Obs) {
     }
 }
 
+/// Structural shrinking for failures found outside proptest (sweeps, corpus): repeatedly try to
+/// delete one element of any array inside the case's JSON encoding, keeping a deletion when the
+/// smaller case still decodes and still fails. Bounded; best effort.
+fn shrink_json<P: Property>(p: &P, known: &Known, start: &Value) -> Option<(Value, String, String)> {
+    fn arrays(v: &Value, path: &mut Vec<String>, out: &mut Vec<(Vec<String>, usize)>) {
+        match v {
+            Value::Array(a) => {
+                out.push((path.clone(), a.len()));
+                for (i, x) in a.iter().enumerate() {
+                    path.push(i.to_string());
+                    arrays(x, path, out);
+                    path.pop();
+                }
+            }
+            Value::Object(o) => {
+                for (k, x) in o {
+                    path.push(k.clone());
+                    arrays(x, path, out);
+                    path.pop();
+                }
+            }
+            _ => {}
+        }
+    }
+    fn at<'a>(v: &'a mut Value, path: &[String]) -> Option<&'a mut Value> {
+        let mut cur = v;
+        for k in path {
+            cur = match cur {
+                Value::Array(a) => a.get_mut(k.parse::<usize>().ok()?)?,
+                Value::Object(o) => o.get_mut(k)?,
+                _ => return None,
+            };
+        }
+        Some(cur)
+    }
+    let fails = |v: &Value| -> Option<(String, String)> {
+        let case: P::Case = serde_json::from_value(v.clone()).ok()?;
+        match eval(p, &case).0 {
+            Verdict::Fail { sig, msg } if known.lookup(p.id(), &sig).is_none() => Some((sig, msg)),
+            _ => None,
+        }
+    };
+    let mut best = start.clone();
+    let mut best_info = fails(&best)?;
+    let mut budget = 400usize;
+    let mut improved = true;
+    while improved && budget > 0 {
+        improved = false;
+        let mut list = Vec::new();
+        arrays(&best, &mut Vec::new(), &mut list);
+        'outer: for (path, len) in list {
+            for i in (0..len).rev() {
+                if budget == 0 {
+                    break 'outer;
+                }
+                budget -= 1;
+                let mut cand = best.clone();
+                if let Some(Value::Array(a)) = at(&mut cand, &path) {
+                    if i < a.len() {
+                        a.remove(i);
+                    }
+                }
+                if let Some(info) = fails(&cand) {
+                    best = cand;
+                    best_info = info;
+                    improved = true;
+                    continue 'outer;
+                }
+            }
+        }
+    }
+    if best == *start {
+        None
+    } else {
+        Some((best, best_info.0, best_info.1))
+    }
+}
+
 // ------------------------------------------------------------------------------------------------
 
 pub struct RunResult {
@@ -673,7 +751,16 @@ pub fn run<P: Property>(p: &P, tier: Tier, seed: u64) -> RunResult {
     std::fs::write(evdir.join(format!("{}.json", id)), serde_json::to_string_pretty(&evidence).unwrap())
         .expect("write evidence");
 
-    if let Some(f) = failure {
+    if let Some(mut f) = failure {
+        if !f.shrunk && f.phase != "extra" {
+            if let Some((v, sig, msg)) = shrink_json(p, &known, &f.case) {
+                f.case = v;
+                f.sig = sig;
+                f.msg = msg;
+                f.shrunk = true;
+                f.phase = format!("{} (then shrunk structurally)", f.phase);
+            }
+        }
         let doc = replay_doc(id, &f, seed, tier);
         let path = write_replay(id, &doc);
         println!("VIOLATION property={} replay={}", id, path.display());
